@@ -21,13 +21,13 @@ func init() {
 
 // narrowingTable: reviewed narrowings (function|operand rendering → reason).
 var narrowingTable = map[string]string{
-	"(*udp.UDPv4).Traceroute|common.LocalAddrForHost#0.Port":          "OS-assigned UDP port of a live socket: always 0..65535",
-	"tcp.reserveLocalPort|assert:*net.TCPAddr(…).Port":                 "OS-assigned TCP port of a live listener: always 0..65535",
-	"packets.AllocPacketID|allocator":                                   "identifier space is modulo 2^16 by design (wrap-around of the block counter)",
-	"icmp.nextEchoID|allocator":                                         "identifier space is modulo 2^16 by design",
-	"(*tcp.TCPv4).nextSeqNumAndPacketID|rand":                           "random 16-bit identifier drawn from a 32-bit random number (legacy path)",
-	"packets.SetBPF|len(filter)":                                        "guarded by len(filter) > math.MaxUint16 just above",
-	"packets.htons|byte-swap":                                           "16-bit byte swap computed in uint16",
+	"(*udp.UDPv4).Traceroute|common.LocalAddrForHost#0.Port": "OS-assigned UDP port of a live socket: always 0..65535",
+	"tcp.reserveLocalPort|assert:*net.TCPAddr(…).Port":       "OS-assigned TCP port of a live listener: always 0..65535",
+	"packets.AllocPacketID|allocator":                        "identifier space is modulo 2^16 by design (wrap-around of the block counter)",
+	"icmp.nextEchoID|allocator":                              "identifier space is modulo 2^16 by design",
+	"(*tcp.TCPv4).nextSeqNumAndPacketID|rand":                "random 16-bit identifier drawn from a 32-bit random number (legacy path)",
+	"packets.SetBPF|len(filter)":                             "guarded by len(filter) > math.MaxUint16 just above",
+	"packets.htons|byte-swap":                                "16-bit byte swap computed in uint16",
 }
 
 type bounds struct {
